@@ -19,8 +19,12 @@ import (
 // flight (an enumerated fault dimension).
 type FlipPlan struct {
 	Base ScriptPlan `json:"base"`
-	Real bool       `json:"real"`           // flight recorded from the real crypto/tls client instead of the toolbox
-	Live *LivePlan  `json:"live,omitempty"` // client configuration for Real
+	Real bool       `json:"real"` // flight recorded from the real crypto/tls client instead of the toolbox
+	// Retry: the flips are applied to the hello sent after a HelloRetryRequest
+	// (toolbox flights only): accepted first hello, HRR through Write, then the
+	// corrupted second hello.
+	Retry bool      `json:"retry,omitempty"`
+	Live  *LivePlan `json:"live,omitempty"` // client configuration for Real
 	// Only restricts the enumeration to one bit (set by the shrinker / replay).
 	Only *int `json:"only,omitempty"`
 	// Hint is written by Execute: the first failing bit (used by the shrinker).
@@ -48,7 +52,118 @@ func liveClientConfig(p *LivePlan) *tls.Config {
 	return ccfg
 }
 
+// executeFlipRetry: every single-bit corruption of the hello that follows a
+// HelloRetryRequest. The retried hello must be aborted, or - when the flip
+// makes it something else than a ClientHello record - passed on untouched;
+// it must never be replaced by a "reconstructed" hello.
+func executeFlipRetry(t *testing.T, prop string, seed uint64, p *FlipPlan) *core.Result {
+	res := &core.Result{}
+	cryptotest.SetGlobalRandom(t, seed)
+	base := p.Base
+	base.Keys = []KeySpec{base.Target}
+	b, err := buildScript(seed, &base)
+	if err != nil {
+		if err == errSkip {
+			res.Probe("scenario_skipped")
+			return res
+		}
+		res.Harness = "buildScript: " + err.Error()
+		return res
+	}
+	hc := &histClient{p: &base, b: b, r: res, seed: seed, sendSeq: 1}
+	hrr := hrrRecord(core.Mix(seed, "hrr"))
+	rec2, _, _, want2, err := hc.hello2("hello2-ok", 0, true)
+	if err != nil || want2 == nil {
+		res.Harness = fmt.Sprintf("hello2: %v", err)
+		return res
+	}
+	buf := make([]byte, 70000)
+	try := func(second []byte) (got []byte, rerr error, pk string) {
+		sc := simnet.NewScript(b.outerRec)
+		sc.NoEOF = true
+		p, m, s := core.Guard(func() {
+			conn, err := ech.NewConn(context.Background(), sc, ech.WithKeys(b.keys))
+			if err != nil {
+				rerr = fmt.Errorf("NewConn: %w", err)
+				return
+			}
+			if n, err := conn.Read(buf); err != nil || n == 0 {
+				rerr = fmt.Errorf("first Read: %v", err)
+				return
+			}
+			if _, err := conn.Write(hrr); err != nil {
+				rerr = fmt.Errorf("Write HRR: %w", err)
+				return
+			}
+			sc.Feed(second)
+			n, err := conn.Read(buf)
+			got, rerr = append([]byte(nil), buf[:n]...), err
+		})
+		if p {
+			pk = s + ": " + normMsg(m)
+		}
+		return
+	}
+	// positive control
+	got, rerr, pk := try(rec2)
+	w := append([]byte(nil), want2...)
+	if len(got) >= 3 {
+		w[1], w[2] = got[1], got[2]
+	}
+	if pk != "" || rerr != nil || !bytes.Equal(got, w) {
+		res.Fail(prop, "rejected-valid", "positive control: authentic retried hello not replaced by the reference inner", "err=%v panic=%q", rerr, pk)
+		return res
+	}
+	lo, hi := 0, len(rec2)*8
+	if p.Only != nil {
+		lo, hi = *p.Only, *p.Only+1
+	}
+	aborted, passed := 0, 0
+	mut := make([]byte, len(rec2))
+	for bit := lo; bit < hi; bit++ {
+		copy(mut, rec2)
+		mut[bit/8] ^= 1 << (bit % 8)
+		got, rerr, pk := try(mut)
+		res.Evals++
+		hint := func() {
+			if p.Hint == nil {
+				bb := bit
+				p.Hint = &bb
+			}
+		}
+		switch {
+		case pk != "":
+			hint()
+			res.Fail(prop, "panic", pk, "bit %d of the retried hello flipped", bit)
+		case bit/8 < 9:
+			// record / handshake header: not part of ClientHelloOuter (only no panic)
+		case rerr != nil:
+			aborted++
+		case bytes.Equal(got, mut):
+			passed++
+			if bit/8 >= 9 {
+				hint()
+				res.Fail(prop, "accepted-unauthentic", "retried hello with an altered bit passed on instead of being aborted", "bit %d (byte %d of %d, region %s)", bit, bit/8, len(rec2), region(rec2, bit/8))
+			}
+		default:
+			hint()
+			res.Fail(prop, "accepted-unauthentic", "retried hello with an altered bit replaced by a reconstructed hello", "bit %d (byte %d of %d, region %s)", bit, bit/8, len(rec2), region(rec2, bit/8))
+		}
+	}
+	res.FaultN("bit_flip", res.Evals)
+	res.ProbeN("retry_flip_aborted", aborted)
+	res.ProbeN("retry_flip_untouched", passed)
+	res.NonTrivial = true
+	res.Sig = core.SigOf("flip-retry", core.SizeClass(len(rec2)), fmt.Sprint(seed%64))
+	res.LogHash = core.HashLog([]string{fmt.Sprintf("%d %d %d", len(rec2), aborted, passed)})
+	res.Sample = map[string]any{"kind": "flip-retry", "hello_bytes": len(rec2), "bits": hi - lo, "aborted": aborted, "untouched": passed}
+	return res
+}
+
 func executeFlip(t *testing.T, prop string, seed uint64, p *FlipPlan) *core.Result {
+	if p.Retry && !p.Real {
+		return executeFlipRetry(t, prop, seed, p)
+	}
 	res := &core.Result{}
 	cryptotest.SetGlobalRandom(t, seed)
 	var rec []byte
